@@ -29,6 +29,9 @@ pub struct Spec {
     /// true: all actors call publish on the same instance; false: each on its own clone
     pub shared_instance: bool,
     pub check_seed: u64,
+    /// storage read failures (permille) while the concurrent calls run: a failing call next to a succeeding one
+    #[serde(default)]
+    pub read_fail_permille: u32,
 }
 
 fn gen(rng: &mut Rng, _tier: Tier) -> Spec {
@@ -86,6 +89,7 @@ fn gen(rng: &mut Rng, _tier: Tier) -> Spec {
         concurrent,
         shared_instance: rng.chance(1, 3),
         check_seed: rng.next_u64(),
+        read_fail_permille: if rng.chance(1, 4) { *rng.pick(&[10, 40]) } else { 0 },
     }
 }
 
@@ -149,6 +153,10 @@ async fn run_t<TC: ModelCfg>(spec: Spec) -> Out {
     }
     let (e0, _h0) = model.current();
     // ---- the concurrent calls ----
+    if spec.read_fail_permille > 0 {
+        let pm = spec.read_fail_permille;
+        sched::set_fault_plan(|f| f.read_fail_permille.push((0, pm)));
+    }
     let shared = std::sync::Arc::new(dir.clone());
     let mut handles = vec![];
     for b in spec.concurrent.iter() {
@@ -171,6 +179,14 @@ async fn run_t<TC: ModelCfg>(spec: Spec) -> Out {
                 return out;
             }
         }
+    }
+    sched::set_fault_plan(|f| f.read_fail_permille.clear());
+    // tasks a failed call may have left behind
+    for _ in 0..2000 {
+        if sched::pending_count() == 0 {
+            break;
+        }
+        tokio::time::sleep(std::time::Duration::from_millis(2)).await;
     }
     let oks: Vec<usize> = (0..results.len()).filter(|i| results[*i].is_ok()).collect();
     let n_err = results.len() - oks.len();
